@@ -264,60 +264,66 @@ def body(chk, db, cfgname):
         r2.ok(IC + "prepare:inverse", f.loc(), "InfoToIndices[*IndicesToInfo[i]] = i for every i in [0, IndexSize)", cfgname)
     else:
         r2.bad(IC + "prepare:inverse", f.loc(), "the inverse table is not filled as InfoToIndices[*IndicesToInfo[i]] = i over [0, IndexSize)", cfgname)
+    from pv.paths import return_cases
+    from pv.entail import contradicts
+    # getInfo(i): every returning path has established i < IndexSize and returns *IndicesToInfo[i] (any spelling of the element)
     g = db.fn(IC + "getInfo", nparams=1)
     gctx = Ctx(g, db)
-    gat = guard_facts(g, gctx)
     pk = ("param", g.params[0]["d"], g.params[0]["n"])
-    subs = [j for j, n in g.walk(g.body) if n["k"] == "call" and n["ck"] == "op" and n["op"] == "[]" and gctx.key(n["args"][0]) == i2i]
-    good = bool(subs)
-    for j in subs:
-        if not entails(gat.get(g.cfg.pos1(j), frozenset()), ("<", gctx.key(g.nodes[j]["args"][1]), isize)):
-            good = False
-    rets = [j for j, n in g.walk(g.body) if n["k"] == "return"]
-    for j in rets:
-        if gctx.key(g.nodes[j]["sub"]) not in (("un", "*", ("op", "[]", i2i, pk)), ("op", "*", ("op", "[]", i2i, pk))):
-            good = False
-    if good:
-        r2.ok(IC + "getInfo", g.loc(), "IndicesToInfo[in] is read under in < IndexSize and *IndicesToInfo[in] is returned", cfgname)
-    else:
-        r2.bad(IC + "getInfo", g.loc(), "getInfo does not return *IndicesToInfo[in] under the bound in < IndexSize", cfgname)
+    elem_forms = (("op", "[]", i2i, pk), ("mcall", "std::vector::at", i2i, pk), ("mcall", "std::vector::operator[]", i2i, pk),
+                  ("un", "*", ("op", "+", ("mcall", "std::vector::begin", i2i), pk)), ("op", "*", ("op", "+", ("mcall", "std::vector::begin", i2i), pk)),
+                  ("un", "*", ("op", "+", ("mcall", "std::vector::cbegin", i2i), pk)), ("op", "*", ("op", "+", ("mcall", "std::vector::cbegin", i2i), pk)))
+    with r2.guard(IC + "getInfo", g.loc(), cfgname):
+        cases = return_cases(g, gctx)
+        if not cases:
+            raise AnalysisBroken("getInfo: the returning paths cannot be enumerated")
+        probs = []
+        for c_ in cases:
+            k_ = c_["key"]
+            inner = k_[2] if (k_[0] in ("un", "op") and len(k_) == 3 and k_[1] == "*") else None
+            if inner not in elem_forms:
+                raise AnalysisBroken("getInfo: the returned expression is not a dereference of IndicesToInfo[in] in a recognised spelling")
+            if not entails(frozenset(c_["facts"]), ("<", pk, isize)):
+                probs.append("IndicesToInfo[in] is read on a path that has not established in < IndexSize")
+        if probs:
+            r2.bad(IC + "getInfo", g.loc(), "; ".join(sorted(set(probs))), cfgname)
+        else:
+            r2.ok(IC + "getInfo", g.loc(), "IndicesToInfo[in] is read under in < IndexSize and *IndicesToInfo[in] is returned", cfgname)
+    # getIndex(info): the stored index on the found edge, IndexSize on the not-found edge -- whatever the form (if/else, ?:, flag)
     g = db.fn(IC + "getIndex", nparams=1)
     gctx = Ctx(g, db)
-    gat = guard_facts(g, gctx)
     pk = ("param", g.params[0]["d"], g.params[0]["n"])
     fk = ("mcall", "std::map::find", inv, pk)
     ek = ("mcall", "std::map::end", inv)
     ne = ("!=",) + tuple(sorted([fk, ek], key=repr))
-    good = True
-    nfound = 0
+    eq = ("==",) + ne[1:]
     found_forms = (("field", "std::pair::second", ("op", "->", fk)), ("field", "std::pair::second", ("op", "*", fk)), ("field", "std::pair::second", ("un", "*", fk)))
-    for j, n in g.walk(g.body):
-        if n["k"] == "return":
-            rk = gctx.key(n["sub"])
-            fa = gat.get(g.cfg.pos1(j), frozenset())
-            if rk[0] == "cond" and len(rk) == 4:
-                # return (it == end) ? IndexSize : it->second   /   (it != end) ? it->second : IndexSize
-                c_ = rk[1]
-                eqc = c_[0] == "op" and c_[1] in ("==", "!=") and {c_[2], c_[3]} == {fk, ek}
-                a_, b_ = (rk[2], rk[3]) if (eqc and c_[1] == "!=") else (rk[3], rk[2])
-                if eqc and a_ in found_forms and b_ == isize:
+    with r2.guard(IC + "getIndex", g.loc(), cfgname):
+        cases = return_cases(g, gctx)
+        if not cases:
+            raise AnalysisBroken("getIndex: the returning paths cannot be enumerated")
+        probs = []
+        nfound = 0
+        for c_ in cases:
+            k_, fs_ = c_["key"], frozenset(c_["facts"])
+            if ne in fs_:
+                if k_ in found_forms:
                     nfound += 1
+                elif k_ == isize:
+                    probs.append("IndexSize (`unknown`) is returned although the look-up succeeded")
                 else:
-                    good = False
-                continue
-            if rk in found_forms:
-                nfound += 1
-                if not entails(fa, ne):
-                    good = False
-            elif rk == isize:
-                if not entails(fa, ("==",) + ne[1:]):
-                    good = False
+                    raise AnalysisBroken("getIndex: value returned on the found edge is not the stored index in a recognised spelling")
+            elif eq in fs_:
+                if k_ in found_forms:
+                    probs.append("the look-up result is dereferenced on the not-found edge")
+                elif k_ != isize:
+                    probs.append("an unknown combination does not yield IndexSize")
             else:
-                good = False
-    if good and nfound:
-        r2.ok(IC + "getIndex", g.loc(), "returns InfoToIndices.find(in)->second on the found edge, IndexSize otherwise", cfgname)
-    else:
-        r2.bad(IC + "getIndex", g.loc(), "getIndex(info) does not return the stored index on the found edge / IndexSize on the not-found edge", cfgname)
+                raise AnalysisBroken("getIndex: a returning path does not decide whether the look-up succeeded")
+        if probs or not nfound:
+            r2.bad(IC + "getIndex", g.loc(), "getIndex(info) does not return the stored index on the found edge / IndexSize on the not-found edge: " + ("; ".join(sorted(set(probs))) or "no path returns the stored index"), cfgname)
+        else:
+            r2.ok(IC + "getIndex", g.loc(), "returns InfoToIndices.find(in)->second on the found edge, IndexSize otherwise", cfgname)
     # ------------------------------------------------------------------ R3: the key order of the inverse table separates all triples
     r3 = chk.rule("C18-R3", "IndexInfo::operator< is a lexicographic order on (label, orbital, spin): distinct triples are distinct keys of the inverse table", "F8 guards", 1)
     check_lt(r3, db, cfgname, chk.tier == "thorough")
